@@ -68,11 +68,37 @@ def real_data():
     return legacy, segwit, blocks
 
 
-def write_pool(legacy, segwit, blocks):
+def write_pool(txs, blocks):
     fd, path = tempfile.mkstemp(prefix="vf-c16-pool-", suffix=".json")
     with os.fdopen(fd, "w") as f:
-        json.dump({"tx": [rle(legacy[0]), rle(segwit[0])], "block": [rle(b) for b in blocks[:3]]}, f)
+        json.dump({"tx": [rle(t) for t in txs], "block": [rle(b) for b in blocks]}, f)
     return path
+
+
+def fidelity(ctx, real):
+    """R2: before it judges pycoin, the SPEC parses every real transaction / block (as a tx / block message) and
+    re-packs it byte for byte (invariant RoundTrip of MC_P2PReplay, tier "p").  The abstract values it read are
+    what the recorder later hands to pycoin - real data never passes through pycoin's own parser on its way in."""
+    legacy, segwit, blocks = real
+    pool = write_pool(legacy + segwit, blocks)
+    got = {}
+
+    def on(rec):
+        if rec.get("k") == "msg":
+            if rec["end"] != "done" or rec["left"] != 0 or rec["parsed"]["same"]:
+                raise MachineryError("spec does not parse a real %s to its end" % rec["name"])
+            f = D.seq(rec["parsed"]["fields"])[0]
+            got[D.expand(rec["bytes"])] = D.plain(f["t"], f["v"])
+    try:
+        ctx.tlc("MC_P2PReplay", "MC_P2PReplay_pool", workers=8, env={"P2P_POOL": pool}, on_record=on, keep_records=False, timeout=1800)
+    finally:
+        os.unlink(pool)
+    missing = [b for b in legacy + segwit + blocks if b not in got]
+    if missing:
+        raise MachineryError("spec did not parse and re-pack %d real transactions / blocks" % len(missing))
+    ctx.extra["ground_truth_vectors"] = len(got) + 4
+    ctx.log("fidelity: %d real transactions and %d blocks parse and re-pack byte for byte through P2PParse/P2PMsg" % (len(legacy) + len(segwit), len(blocks)))
+    return [got[b] for b in legacy], [got[b] for b in segwit], [got[b] for b in blocks]
 
 
 # ---------------------------------------------------------------- code -> spec: the recorder
@@ -126,8 +152,7 @@ class Gen:
         rnd = self.rnd
         r = rnd.random()
         if r < 0.5:
-            raw = rnd.choice(self.legacy if r < 0.25 else self.segwit)
-            return D.proj("T", D.N().tx.from_bin(raw))
+            return rnd.choice(self.legacy if r < 0.25 else self.segwit)
         nin, nout = rnd.randrange(1, 4), rnd.randrange(0, 4)
         ins = tuple((_rand_bytes(rnd, 32, rnd.random() < 0.5), _rand_u(rnd, 32), _rand_bytes(rnd, _rand_len(rnd, False)), _rand_u(rnd, 32),
                      tuple(_rand_bytes(rnd, _rand_len(rnd, False)) for _ in range(rnd.choice([0, 0, 1, 2])))) for _ in range(nin))
@@ -170,7 +195,7 @@ class Gen:
         if l == "T":
             return self.tx()
         if l == "B":
-            return D.proj("B", D.N().block.from_bin(rnd.choice(self.blocks)))
+            return rnd.choice(self.blocks)
         raise ValueError(l)
 
     def field(self, t):
@@ -305,9 +330,9 @@ def _trace_key(ev, why):
 
 def _traces(ctx, layouts, real):
     q = ctx.quick
-    n = 600 if q else 4000
+    n = 480 if q else 4000
     evs = record_traces(ctx.seed * 104729 + 16, n, False, layouts, real)
-    evs += record_traces(ctx.seed * 104729 + 160, n // 6, True, layouts, real)
+    evs += record_traces(ctx.seed * 104729 + 160, n // 8, True, layouts, real)
     ctx.case(None, len(evs))
     logged = []
     for e in evs:
@@ -319,10 +344,12 @@ def _traces(ctx, layouts, real):
             logged.append(e)
     tj = [trace_json(e, layouts) for e in logged]
     size = 350
+    accepted = []
     for a in range(0, len(tj), size):
         b = min(len(tj), a + size)
         rej, why = validate_traces(ctx, tj[a:b], workers=8)
         ctx.traces += (b - a) - len(rej)
+        accepted += [i for i in range(a, b) if i - a not in rej]
         for i in sorted(rej):
             e = logged[a + i]
             ctx.fail(_trace_key(e, why.get(i)), "recorded pycoin run is not a behaviour of P2PMsg/P2PParse: %s %s" % (e["name"], why.get(i)),
@@ -332,23 +359,92 @@ def _traces(ctx, layouts, real):
     ctx.extra["trace_events"] = len(evs)
     ctx.extra["trace_messages_covered"] = len({e["name"] for e in logged})
     ctx.extra["trace_longest_array"] = max((len(v) for e in logged for v in e["fields"].values() if isinstance(v, tuple)), default=0)
-    # binding self-test: corrupt one logged field, one byte, one parsed value
-    g = next(tj[i] for i, e in enumerate(logged) if e["name"] == "ping")
-    g2 = next(tj[i] for i, e in enumerate(logged) if e["name"] == "addr" and len(e["fields"]["date_address_tuples"]) >= 1)
-    bad1 = copy.deepcopy(g)
-    bad1["fields"]["nonce"][0] ^= 1
-    bad2 = copy.deepcopy(g)
-    runs = bad2["bytes"]
-    runs[0] = [runs[0][0] ^ 0x80, runs[0][1]]
-    if len(runs) > 1 and runs[1][0] == runs[0][0]:
-        runs[0][0] ^= 0x40
-    bad3 = copy.deepcopy(g2)
-    bad3["parsed"]["date_address_tuples"][0][1]["port"] ^= 0x0101
-    bad4 = copy.deepcopy(g2)
-    bad4["fields"]["date_address_tuples"][0][1]["port"] = ((bad4["fields"]["date_address_tuples"][0][1]["port"] << 8) & 0xFF00) | (bad4["fields"]["date_address_tuples"][0][1]["port"] >> 8) ^ 1
-    bad4["parsed"] = copy.deepcopy(bad4["fields"])
-    rej, _ = validate_traces(ctx, [g, bad1, bad2, g2, bad3, bad4], workers=1)
-    ctx.selftest("trace_rejects_corrupted_field", rej == {1, 2, 4, 5})
+    # binding self-test: take traces TLC accepted; corrupt one logged field, one byte, one parsed value
+    base = []
+    for want in ("ping", "addr", "version", "inv", "getblocks"):
+        i = next((i for i in accepted if logged[i]["name"] == want and _mutable(logged[i])), None)
+        if i is not None:
+            base.append(i)
+    base = base[:2]
+    if not base:
+        ctx.selftests["trace_rejects_corrupted_field"] = "skipped (TLC accepted no trace to corrupt)"
+        return
+    batch, expect = [], set()
+    for i in base:
+        g = tj[i]
+        lay = logged[i]["layout"]
+        batch.append(g)
+        for what in ("fields", "bytes", "parsed"):
+            bad = copy.deepcopy(g)
+            if what == "bytes":
+                runs = bad["bytes"]
+                runs[0] = [runs[0][0] ^ 0x80, runs[0][1]]
+                if len(runs) > 1 and runs[1][0] == runs[0][0]:
+                    runs[0][0] ^= 0x40
+            else:
+                n, t = lay[0]
+                bad[what][n] = _mutate_abs(t, bad[what][n])
+            expect.add(len(batch))
+            batch.append(bad)
+    rej, _ = validate_traces(ctx, batch, workers=1)
+    ctx.selftest("trace_rejects_corrupted_field", rej == expect)
+
+
+def _mutable(ev):
+    lay = ev["layout"]
+    if not lay or not ev["bytes"]:
+        return False
+    n, t = lay[0]
+    arr, ls = D.letters(t)
+    return ls[0] in "LQ6I1hbA#Sv" and (not arr or len(ev["fields"][n]) > 0)
+
+
+def _mutate_abs(t, v):
+    """change an abstract value into another value of the same type"""
+    arr, ls = D.letters(t)
+    if arr:
+        v = list(v)
+        if len(ls) == 1:
+            v[0] = _mutate_abs(ls, v[0])
+        else:
+            v[0] = [_mutate_abs(ls[0], v[0][0])] + list(v[0][1:])
+        return v
+    l = ls
+    if l in "LQ6I":
+        return [v[0] ^ 1] + list(v[1:])
+    if l in "1h":
+        return v ^ 1
+    if l == "b":
+        return not v
+    if l in "S#":
+        return [[v[0][0] ^ 1, v[0][1]]] + [list(r) for r in v[1:]] if v and (len(v) < 2 or v[1][0] != v[0][0] ^ 1) else [[7, 1]] + ([] if l == "S" else [[8, 31]])
+    if l == "A":
+        return dict(v, port=v["port"] ^ 1)
+    if l == "v":
+        return dict(v, type=[v["type"][0] ^ 1, v["type"][1]])
+    raise ValueError(l)
+
+
+# ---------------------------------------------------------------- single-case replay (./check C16 --replay FILE)
+
+def replay(ctx, obj):
+    """re-execute the failing case stored in a replay file on the pycoin under test"""
+    d = obj.get("detail") or {}
+    rec = d.get("case")
+    print("replaying %s" % obj.get("key"))
+    if isinstance(rec, dict) and rec.get("k") == "msg":
+        fails = D.check_msg_record(rec)
+    elif isinstance(rec, dict) and rec.get("k") == "codec":
+        fails = D.check_codec_record(rec)
+    else:
+        print(json.dumps(obj, indent=1)[:4000])
+        print("(a recorded session: re-run ./check C16 with the same VERIF_SEED to reproduce it)")
+        return
+    for key, what, detail in fails:
+        print("  still fails:", key, "-", json.dumps(detail.get("detail"))[:300])
+        ctx.fail(key, what, detail)
+    if not fails:
+        print("  the case passes on this tree")
 
 
 # ---------------------------------------------------------------- run
@@ -380,8 +476,9 @@ def run(ctx):
                         "getblocktxn / prefilled indexes are the differentially encoded compact sizes as they are on the wire",
                         "TLC/SANY, CPython"]
     real = real_data()
-    pool = write_pool(*real)
+    pool = write_pool([real[0][0], real[1][0]], real[2][:3])
     try:
+        real_abs = fidelity(ctx, real)
         # ---- 1/2. codecs: lemmas + spec -> code at the streamer level; layouts
         layouts = {}
         n_codec = [0]
@@ -393,10 +490,12 @@ def run(ctx):
             elif rec.get("k") == "codec":
                 n_codec[0] += 1
                 ctx.case(("codec", rec["l"], json.dumps(rec["v"], sort_keys=True)))
-                fails.extend(D.check_codec_record(rec))
-                on_codec.last = rec
+                f = D.check_codec_record(rec)
+                fails.extend(f)
+                if not f:
+                    on_codec.last = rec
         r = ctx.tlc("MC_P2PCodec", "MC_P2PCodec", workers=4, env={"P2P_POOL": pool}, on_record=on_codec, keep_records=False,
-                    coverage=not q)
+                    )
         if n_codec[0] == 0 or len(layouts) < 2:
             raise MachineryError("MC_P2PCodec printed no case / no layout")
         ctx.replayed += n_codec[0]
@@ -410,9 +509,12 @@ def run(ctx):
             raise MachineryError("the library defines messages the spec has no layout for: %s" % sorted(lib - spec))
         ctx.extra["messages"] = len(spec)
         # self-test: corrupt one expected byte of one codec case
-        bad = copy.deepcopy(on_codec.last)
-        bad["bytes"] = ["ff"] + D.seq(bad["bytes"])
-        ctx.selftest("replay_rejects_corrupted_codec_bytes", any("bytes-differ" in k for k, _, _ in D.check_codec_record(bad)))
+        if getattr(on_codec, "last", None) is None:
+            ctx.selftests["replay_rejects_corrupted_codec_bytes"] = "skipped (pycoin passed no codec case to corrupt)"
+        else:
+            bad = copy.deepcopy(on_codec.last)
+            bad["bytes"] = ["ff"] + D.seq(bad["bytes"])
+            ctx.selftest("replay_rejects_corrupted_codec_bytes", any("bytes-differ" in k for k, _, _ in D.check_codec_record(bad)))
         if not q and (not only or "mut" in only):
             _mutant_lemmas(ctx, pool)
 
@@ -422,6 +524,8 @@ def run(ctx):
             keep = {}
 
             def on_msg(rec):
+                if rec.get("k") == "ncases":
+                    n_msg.append(rec["n"])
                 if rec.get("k") != "msg":
                     return
                 n_msg[0] += 1
@@ -432,38 +536,45 @@ def run(ctx):
                 n_msg[1] += 1
                 ctx.case(D.msg_class(rec))
                 ctx.action("replay.msg." + rec["name"])
-                if rec["name"] in ("version", "addr") and rec["name"] not in keep and rec["parsed"]["same"]:
-                    keep[rec["name"]] = rec
                 if n_msg[0] % 211 == 0:
                     ctx.sample({"case": rec if len(json.dumps(rec)) < 1500 else {"name": rec["name"], "truncated": json.dumps(rec)[:1200]}})
-                fails.extend(D.check_msg_record(rec))
+                f = D.check_msg_record(rec)
+                fails.extend(f)
+                fl = D.seq(rec["fields"])
+                if not f and "num" not in keep and fl and fl[0]["t"] in ("L", "Q") and rec["parsed"]["same"]:
+                    keep["num"] = rec
             ctx.tlc("MC_P2PReplay", "MC_P2PReplay_q" if q else "MC_P2PReplay_t", workers=16, env={"P2P_POOL": pool},
-                    on_record=on_msg, keep_records=False, timeout=3000,
-                    coverage=not q, require_actions=() if q else ("MScalar", "MCount", "MTxStart", "MTxStep", "MTxEnd", "MBlockStart", "MBlockTx", "MFinish"))
-            if n_msg[1] == 0:
-                raise MachineryError("MC_P2PReplay printed no case")
+                    on_record=on_msg, keep_records=False, timeout=3000)
+            # vacuity guard (TLC's -coverage is prohibitively slow on this spec): every message has cases
+            seen = {k[len("replay.msg."):] for k in ctx.by_action if k.startswith("replay.msg.")}
+            if seen != spec:
+                raise MachineryError("messages without a replayed case: %s" % sorted(spec - seen))
+            if n_msg[1] == 0 or len(n_msg) != 3 or n_msg[2] != n_msg[0]:
+                raise MachineryError("MC_P2PReplay: %d cases printed, the case set has %s (a case did not reach a terminal state)" % (n_msg[0], n_msg[2:]))
             ctx.replayed += n_msg[1]
             ctx.log("message level: %d cases from TLC (%d executed on pycoin), %d disagreements so far" % (n_msg[0], n_msg[1], len(fails)))
-            # binding self-tests: corrupt one expected byte / one expected parsed value of one case
-            bad = copy.deepcopy(keep["version"])
-            tok = D.seq(bad["bytes"])
-            bad["bytes"] = ["%02x" % (int(tok[0][:2], 16) ^ 1) + tok[0][2:]] + tok[1:] if tok[0][0] != "*" else ["01"] + tok
-            f = D.check_msg_record(bad)
-            ctx.selftest("replay_rejects_corrupted_expected_bytes", any("bytes-differ" in k for k, _, _ in f))
-            bad = copy.deepcopy(keep["addr"])
-            arr = D.seq(bad["fields"][0]["v"])
-            if arr:
-                arr[0][1]["port"] ^= 1
+            # binding self-tests: take a case pycoin passed; corrupt one expected byte / one expected parsed value
+            if "num" not in keep:
+                ctx.selftests["replay_rejects_corrupted_expected_bytes"] = "skipped (pycoin passed no case to corrupt)"
+                ctx.selftests["replay_rejects_corrupted_expected_field"] = "skipped (pycoin passed no case to corrupt)"
             else:
-                bad["fields"][0]["v"] = [[[1, 0], {"services": [0, 0, 0, 0], "ip": ["*00x16"], "port": 1, "v4": False, "octets": []}]]
-            f = D.check_msg_record(bad)
-            ctx.selftest("replay_rejects_corrupted_expected_field", any("|parse|field=date_address_tuples" in k or "bytes-differ" in k for k, _, _ in f))
+                bad = copy.deepcopy(keep["num"])
+                tok = D.seq(bad["bytes"])
+                bad["bytes"] = ["%02x" % (int(tok[0][:2], 16) ^ 1) + tok[0][2:]] + tok[1:] if tok[0][0] != "*" else ["01"] + tok
+                f = D.check_msg_record(bad)
+                ctx.selftest("replay_rejects_corrupted_expected_bytes", any("|pack|bytes-differ" in k for k, _, _ in f))
+                bad = copy.deepcopy(keep["num"])
+                pf = copy.deepcopy(D.seq(bad["fields"]))
+                pf[0]["v"] = [pf[0]["v"][0] ^ 1] + list(pf[0]["v"][1:])
+                bad["parsed"] = {"same": False, "fields": pf}
+                f = D.check_msg_record(bad)
+                ctx.selftest("replay_rejects_corrupted_expected_field", any("|parse|field=" + pf[0]["n"] in k for k, _, _ in f))
         for key, what, detail in fails:
             ctx.fail(key, what, detail)
 
         # ---- 3. code -> spec
         if not only or "traces" in only:
-            _traces(ctx, layouts, real)
+            _traces(ctx, layouts, real_abs)
     finally:
         os.unlink(pool)
     ctx.exhaustive = True
